@@ -6,6 +6,46 @@ import os
 HERE = os.path.dirname(os.path.dirname(os.path.abspath(__file__)))
 
 CHECKS = {
+    "C01": dict(
+        text="Runner-level Lean model (Model/Proto = unittest 3.12.1 protocol, Model/Result = TestResult, Model/Runner = layer loop, resume, children) tied to the code by running the real runner (CLI, real children) on generated test worlds whose hooks and tests write a pid-tagged trace; every process is compared event by event with the model on this property's projection, and the property's clauses are monitored on the real traces/output. Projection/monitor: layer setUp/tearDown/test events: stack exactness, setUp/tearDown guards, all torn down, frozen after NotImplementedError.",
+        note='hooks that re-enter the runner, MemoryError/KeyboardInterrupt/EndRun and -D are not modelled; Lean theorems for the invariant are being added (see evidence.obligations)',
+        technique="Lean 4 executable model + differential correspondence on generated test worlds + trace monitors (theorems in progress)",
+        design="§5 C01"),
+    "C02": dict(
+        text="Runner-level Lean model (Model/Proto = unittest 3.12.1 protocol, Model/Result = TestResult, Model/Runner = layer loop, resume, children) tied to the code by running the real runner (CLI, real children) on generated test worlds whose hooks and tests write a pid-tagged trace; every process is compared event by event with the model on this property's projection, and the property's clauses are monitored on the real traces/output. Projection/monitor: exit status iff something went wrong (trace truth), incl. children that die by os._exit/SIGKILL/SIGSEGV in any phase, non-spoofing fd-2 noise.",
+        note='OS process death and pipe EOF are sampled, not proved; header-spoofing fd-2 noise is KNOWN-FINDING D10 (C07)',
+        technique="Lean 4 executable model + differential correspondence on generated test worlds + trace monitors (theorems in progress)",
+        design="§5 C02"),
+    "C03": dict(
+        text="Runner-level Lean model (Model/Proto = unittest 3.12.1 protocol, Model/Result = TestResult, Model/Runner = layer loop, resume, children) tied to the code by running the real runner (CLI, real children) on generated test worlds whose hooks and tests write a pid-tagged trace; every process is compared event by event with the model on this property's projection, and the property's clauses are monitored on the real traces/output. Projection/monitor: selected tests executed exactly --repeat times in one process, --list-tests lists the same set in the same order without running code, all modes agree.",
+        note='selection itself is C08/C09; shuffle order is taken from the real listing (C11)',
+        technique="Lean 4 executable model + differential correspondence on generated test worlds + trace monitors (theorems in progress)",
+        design="§5 C03"),
+    "C04": dict(
+        text="Runner-level Lean model (Model/Proto = unittest 3.12.1 protocol, Model/Result = TestResult, Model/Runner = layer loop, resume, children) tied to the code by running the real runner (CLI, real children) on generated test worlds whose hooks and tests write a pid-tagged trace; every process is compared event by event with the model on this property's projection, and the property's clauses are monitored on the real traces/output. Projection/monitor: no runner traceback, summaries printed, layers torn down, other tests still run for raising tests/layers in every phase, with/without --buffer.",
+        note='exception classes outside Exception in layer hooks are outside the quantifier',
+        technique="Lean 4 executable model + differential correspondence on generated test worlds + trace monitors (theorems in progress)",
+        design="§5 C04"),
+    "C05": dict(
+        text="Runner-level Lean model (Model/Proto = unittest 3.12.1 protocol, Model/Result = TestResult, Model/Runner = layer loop, resume, children) tied to the code by running the real runner (CLI, real children) on generated test worlds whose hooks and tests write a pid-tagged trace; every process is compared event by event with the model on this property's projection, and the property's clauses are monitored on the real traces/output. Projection/monitor: testSetUp/testTearDown bracket every test window: bases first, mirrored, balanced, incl. decorator-skipped tests; Model/Proto validated against plain unittest.",
+        note='unittest protocol = CPython 3.12.1; raising per-test hooks are C18',
+        technique="Lean 4 executable model + differential correspondence on generated test worlds + trace monitors (theorems in progress)",
+        design="§5 C05"),
+    "C12": dict(
+        text="Runner-level Lean model (Model/Proto = unittest 3.12.1 protocol, Model/Result = TestResult, Model/Runner = layer loop, resume, children) tied to the code by running the real runner (CLI, real children) on generated test worlds whose hooks and tests write a pid-tagged trace; every process is compared event by event with the model on this property's projection, and the property's clauses are monitored on the real traces/output. Projection/monitor: 'Ran'/'Total' numbers and the failure/error name lists vs the truth computed from the trace.",
+        note='KNOWN-FINDINGs D4 (skipped of children) and D5 (--repeat total)',
+        technique="Lean 4 executable model + differential correspondence on generated test worlds + trace monitors (theorems in progress)",
+        design="§5 C12"),
+    "C13": dict(
+        text="Runner-level Lean model (Model/Proto = unittest 3.12.1 protocol, Model/Result = TestResult, Model/Runner = layer loop, resume, children) tied to the code by running the real runner (CLI, real children) on generated test worlds whose hooks and tests write a pid-tagged trace; every process is compared event by event with the model on this property's projection, and the property's clauses are monitored on the real traces/output. Projection/monitor: token attribution under --buffer (quiet when ok, shown when failing, never in another test's report) and stream identity seen by layer hooks.",
+        note="output after a failing test's last result event is raw inside its window",
+        technique="Lean 4 executable model + differential correspondence on generated test worlds + trace monitors (theorems in progress)",
+        design="§5 C13"),
+    "C16": dict(
+        text="Runner-level Lean model (Model/Proto = unittest 3.12.1 protocol, Model/Result = TestResult, Model/Runner = layer loop, resume, children) tied to the code by running the real runner (CLI, real children) on generated test worlds whose hooks and tests write a pid-tagged trace; every process is compared event by event with the model on this property's projection, and the property's clauses are monitored on the real traces/output. Projection/monitor: no test start after the first bad outcome in a process, no layer set-up/child after it in sequential runs, clean-up and verdict.",
+        note='under -j N only the per-process clause is claimed',
+        technique="Lean 4 executable model + differential correspondence on generated test worlds + trace monitors (theorems in progress)",
+        design="§5 C16"),
     "C07": dict(
         text="Byte-level Lean model of the child's report writer and the parent's stderr parser (split at \\n, "
              "bytes.split, Python int() grammar, header search, completeness test, UTF-8 validity). Theorems for all "
